@@ -138,6 +138,15 @@ Definition prim_digest_item : ty := Eval vm_compute in (TEnum [ cs 0 "Other" TBy
 Definition prim_header : ty := Eval vm_compute in (header_of prim_digest_item).
 Definition prim_justification : ty := Eval vm_compute in (TStruct [ fd "Round" u64; fd "Commit" prim_commit; fd "VoteAncestries" (TVec prim_header) ]).
 
+(* finality-grandpa CompactCommit and CatchUp (Substrate's wire forms of a commit and of a
+   catch-up), instantiated as the primitives instantiate Commit *)
+Definition prim_auth_data : ty := Eval vm_compute in (TStruct [ fd "Signature" sig64; fd "ID" h256 ]).
+Definition prim_compact_commit : ty := Eval vm_compute in (TStruct [ fd "TargetHash" h256; fd "TargetNumber" u32;
+            fd "Precommits" (TVec prim_precommit); fd "AuthData" (TVec prim_auth_data) ]).
+Definition prim_signed_prevote : ty := Eval vm_compute in (TStruct [ fd "Prevote" prim_precommit; fd "Signature" sig64; fd "ID" h256 ]).
+Definition prim_catch_up : ty := Eval vm_compute in (TStruct [ fd "RoundNumber" u64; fd "Prevotes" (TVec prim_signed_prevote);
+            fd "Precommits" (TVec prim_signed_precommit); fd "BaseHash" h256; fd "BaseNumber" u32 ]).
+
 Definition registry : list (name * ty) := Eval vm_compute in ([ fd "Header" header; fd "Digest" digest; fd "Body" body;
     fd "BabeDigest" babe_pre_digest;
     fd "BabeConsensusDigest" babe_consensus_digest;
@@ -155,7 +164,9 @@ Definition registry : list (name * ty) := Eval vm_compute in ([ fd "Header" head
     fd "PrimMessage" prim_message;
     fd "PrimSignedMessage" prim_signed_message;
     fd "PrimHeader" prim_header;
-    fd "PrimJustification" prim_justification ]).
+    fd "PrimJustification" prim_justification;
+    fd "PrimCompactCommit" prim_compact_commit;
+    fd "PrimCatchUp" prim_catch_up ]).
 
 Fixpoint find_type (n : name) (r : list (name * ty)) : option ty :=
   match r with
